@@ -91,7 +91,7 @@ func walkTree(rootGoitPath string, object *Object) ([]*Node, error) {
 			if err != nil {
 				return nil, err
 			}
-			lineSplit = strings.Split(lineString, " ")
+			lineSplit = strings.SplitN(lineString, " ", 2)
 
 			mode := lineSplit[0]
 			if mode == "040000" {
@@ -121,7 +121,7 @@ func walkTree(rootGoitPath string, object *Object) ([]*Node, error) {
 			hashString := hex.EncodeToString(hashBytes)
 			lineSplit = []string{hashString}
 			if lineString != "" {
-				lineSplit = append(lineSplit, strings.Split(lineString, " ")...)
+				lineSplit = append(lineSplit, strings.SplitN(lineString, " ", 2)...)
 			}
 
 			hash, err := sha.ReadHash(hashString)
